@@ -199,18 +199,37 @@ Fixpoint insert_row (g : grammar) (l : list grammar) : list grammar :=
 
 Definition canon (l : list grammar) : list grammar := fold_right insert_row [] l.
 
+Definition doc_rows (m : mode) : list grammar :=
+  match m with
+  | ROBSD => doc_robsddir :: doc_robsd_own
+  | ROBSD_CROSS => doc_robsddir :: doc_cross_own
+  | ROBSD_PORTS => doc_robsddir :: doc_ports_own
+  | ROBSD_REGRESS => doc_robsddir :: doc_regress_own
+  | CANVAS => doc_canvas_own
+  end ++ doc_common_settable ++ doc_common_readonly.
+
+(* normalised (the extracted oracle then contains byte lists, not Coq strings) *)
+Definition doc_table_robsd : list grammar := Eval vm_compute in canon (doc_rows ROBSD).
+Definition doc_table_cross : list grammar := Eval vm_compute in canon (doc_rows ROBSD_CROSS).
+Definition doc_table_ports : list grammar := Eval vm_compute in canon (doc_rows ROBSD_PORTS).
+Definition doc_table_regress : list grammar := Eval vm_compute in canon (doc_rows ROBSD_REGRESS).
+Definition doc_table_canvas : list grammar := Eval vm_compute in canon (doc_rows CANVAS).
+
 Definition doc_table (m : mode) : list grammar :=
-  canon (match m with
-         | ROBSD => doc_robsddir :: doc_robsd_own
-         | ROBSD_CROSS => doc_robsddir :: doc_cross_own
-         | ROBSD_PORTS => doc_robsddir :: doc_ports_own
-         | ROBSD_REGRESS => doc_robsddir :: doc_regress_own
-         | CANVAS => doc_canvas_own
-         end ++ doc_common_settable ++ doc_common_readonly).
+  match m with
+  | ROBSD => doc_table_robsd
+  | ROBSD_CROSS => doc_table_cross
+  | ROBSD_PORTS => doc_table_ports
+  | ROBSD_REGRESS => doc_table_regress
+  | CANVAS => doc_table_canvas
+  end.
+
+Lemma doc_table_is_canon m : doc_table m = canon (doc_rows m).
+Proof. destruct m; vm_compute; reflexivity. Qed.
 
 (* what the code's canvas table has in addition (defect D7): robsddir as a
    settable, required directory *)
-Definition canvas_extra_row : grammar := doc_robsddir.
+Definition canvas_extra_row : grammar := Eval vm_compute in doc_robsddir.
 
 (* ---- rdomain: "successive rdomain references yield distinct values cycling
    through 11..255" (property text; robsd-config.8: "Unique rdomain(4),
@@ -222,7 +241,7 @@ Definition doc_rdomain_last : Z := 255.
    robsd.8, robsd-cross.8, robsd-ports.8, robsd-regress.8 (there "regress"
    stands for the configured tests); canvas has only configured steps and the
    final end *)
-Definition doc_steps (m : mode) : list bytes :=
+Definition doc_steps_of (m : mode) : list bytes :=
   map bs (match m with
           | ROBSD => ["env"; "cvs"; "patch"; "kernel"; "reboot"; "base"; "release"; "checkflist"; "xbase";
                       "xrelease"; "image"; "hash"; "revert"; "distrib"; "dmesg"; "end"]
@@ -231,9 +250,19 @@ Definition doc_steps (m : mode) : list bytes :=
           | ROBSD_REGRESS => ["env"; "pkg-add"; "cvs"; "patch"; "obj"; "mount"; "umount"; "revert"; "pkg-del"; "dmesg"; "end"]
           | CANVAS => ["end"]
           end).
+Definition doc_steps_robsd : list bytes := Eval vm_compute in doc_steps_of ROBSD.
+Definition doc_steps_cross : list bytes := Eval vm_compute in doc_steps_of ROBSD_CROSS.
+Definition doc_steps_ports : list bytes := Eval vm_compute in doc_steps_of ROBSD_PORTS.
+Definition doc_steps_regress : list bytes := Eval vm_compute in doc_steps_of ROBSD_REGRESS.
+Definition doc_steps_canvas : list bytes := Eval vm_compute in doc_steps_of CANVAS.
+Definition doc_steps (m : mode) : list bytes :=
+  match m with
+  | ROBSD => doc_steps_robsd | ROBSD_CROSS => doc_steps_cross | ROBSD_PORTS => doc_steps_ports
+  | ROBSD_REGRESS => doc_steps_regress | CANVAS => doc_steps_canvas
+  end.
 
 (* where the configured tests go in robsd-regress.8's list: after mount *)
-Definition doc_regress_after : bytes := bs "mount".
+Definition doc_regress_after : bytes := Eval vm_compute in bs "mount".
 
 (* booleans: "yes | no" *)
 Definition doc_yes : Z := 1.
